@@ -324,18 +324,6 @@ impl World {
         };
         let has_size_arg = matches!(op, Op::WithCapacity { .. } | Op::Reserve { .. } | Op::ShrinkTo { .. })
             || matches!(op, Op::Extend { it, .. } | Op::Collect { it, .. } if it.hint.is_some());
-        // ---- a refused allocator request is reported (Err or the documented panic), not swallowed. Checked for the
-        // calls whose very purpose is the request (reserve, shrink, with_capacity). Elsewhere a refused request may
-        // have been optional (the up-front reservation of extend / collect is a hint; a conversion may try to trim
-        // its result): if it was needed, the value or the capacity clauses report what went wrong instead.
-        if matches!(real, Outcome::Ok(_)) && refusals > 0 && matches!(op, Op::Reserve { .. } | Op::ShrinkTo { .. } | Op::ShrinkToFit { .. } | Op::WithCapacity { .. }) {
-            let clause = if fault_refusals > 0 { "C05.refusal_unreported" } else { "C06.refusal_unreported" };
-            ctx.eval(clause);
-            f.push(Failure::new(
-                clause,
-                format!("{}: the allocator refused {refusals} request(s) during the call, yet it returned normally", op.name()),
-            ));
-        }
         match &real {
             Outcome::Ok(ret) => {
                 let m = self.apply_model(op, &r);
@@ -1291,6 +1279,33 @@ impl World {
                             if target > 16 { target.to_string() } else { "inline storage".into() }
                         ),
                     ));
+                }
+            }
+        }
+
+        // ---- a refused allocator request is reported (Err or the documented panic), not swallowed: a reserve / shrink /
+        // with_capacity that returns normally although a request was refused AND whose promise is not met. (A refused
+        // request that was optional, or that was made good by a retry, is nobody's business: the up-front reservation
+        // of extend is a hint, a conversion may try to trim its result, reserve may fall back to the exact size.)
+        {
+            let fr = events.iter().filter(|e| matches!(e.kind, EvKind::FaultAlloc | EvKind::FaultRealloc)).count();
+            let gr = events.iter().filter(|e| matches!(e.kind, EvKind::GiantAlloc | EvKind::GiantRealloc)).count();
+            if real_ok && fr + gr > 0 {
+                let tgt: Option<&Obs> = post[op.first_target() as usize % SLOTS].as_ref();
+                let unmet = match (op, pre_t.as_ref(), tgt) {
+                    (Op::Reserve { .. }, Some(a), Some(b)) => a.len.saturating_add(r.size) > b.cap,
+                    (Op::WithCapacity { .. }, _, Some(b)) => b.cap < r.size,
+                    (Op::ShrinkTo { .. } | Op::ShrinkToFit { .. }, Some(a), Some(b)) => {
+                        let m = if matches!(op, Op::ShrinkToFit { .. }) { 0 } else { r.size };
+                        let target = a.len.max(m);
+                        a.kind == Kind::Heap && a.cap > target && !(if target > 16 { b.kind == Kind::Heap && b.cap == target } else { b.kind == Kind::Inline })
+                    }
+                    _ => false,
+                };
+                if unmet {
+                    let clause = if fr > 0 { "C05.refusal_unreported" } else { "C06.refusal_unreported" };
+                    ctx.eval(clause);
+                    f.push(Failure::new(clause, format!("{name}: the allocator refused {} request(s) during the call, yet it returned normally without what it promises", fr + gr)));
                 }
             }
         }
